@@ -1124,7 +1124,9 @@ theorem guest_features_residues_partial (loc : Seq → List Reg) (host guest : S
 /-- **`gts rotate`, every feature**: C04 `rotate_feature_partial` lifted to the scan loop — with at
 least one located region, every feature of a non-empty record is present in the output with
 unchanged key and qualifiers and denotes the same residues at `(x - head) mod L`, where `head`
-is the head of the FIRST located region (domain of the `Normalize` law and K2 guards as in C04). -/
+is the head of the FIRST located region (domain of the `Normalize` law and K2 guards as in C04:
+`normOk` excludes every range of length ≥ L, in particular the whole-sequence `source` feature, for
+which `rotate_full_length_feature` below is the statement). -/
 theorem rotate_features_partial (loc : Seq → List Reg) (s : Seq) (r : Reg) (rest : List Reg)
     (h : loc s = r :: rest) (hL : 0 < s.len) (f : Feature) (hf : f ∈ s.feats)
     (hw : f.loc.wf = true) (hnn : f.loc.nonneg = true)
@@ -1135,6 +1137,37 @@ theorem rotate_features_partial (loc : Seq → List Reg) (s : Seq) (r : Reg) (re
       f'.loc.den ≼ mapPos (rotMap (-(r.head)) s.len) f.loc.den := by
   simp only [Cli.rotate, h]
   exact C04.rotate_feature_partial s (-(r.head)) hL f hf hw hnn hok h1 h2
+
+/-- **`gts rotate`, the full-length feature** (`source 1..L` of every record; either strand, any markers —
+`C04.fullLength`): it fails `normOk` for every rotation amount, so `rotate_features_partial` is silent on
+it; what holds is that it is a feature of the output UNCHANGED (key, qualifiers, location, markers),
+whatever the locator finds (also when it finds nothing).  No guard. -/
+theorem rotate_full_length_feature (loc : Seq → List Reg) (s : Seq) (hL : 0 < s.len) (f : Feature)
+    (hf : f ∈ s.feats) (hfl : C04.fullLength s.len f.loc = true) : f ∈ (Cli.rotate loc s).feats := by
+  unfold Cli.rotate
+  split
+  · exact hf
+  · exact C04.rotate_full_length_feature s _ hL f hf hfl
+
+/-- **circular `gts split` with one distinct cut, the full-length feature**: the single piece (the record
+opened at the cut, `split_circular_single`) carries it unchanged.  (With two or more distinct cuts the
+pieces are `gts.Slice` windows, the first one across the origin: `C03.slice_wrap_full_length_feature` /
+`C03.slice_fwd_feature_partial` say what each piece carries.) -/
+theorem split_circular_single_full_length_feature (loc : Seq → List Reg) (s : Seq) (r : Reg)
+    (h : loc s = [r]) (hL : 0 < s.len) (f : Feature) (hf : f ∈ s.feats)
+    (hfl : C04.fullLength s.len f.loc = true) :
+    ∀ pc ∈ Cli.split loc true s, f ∈ pc.feats := by
+  rw [split_circular_single loc s r h]
+  intro pc hpc
+  rw [List.mem_singleton.mp hpc]
+  exact C04.rotate_full_length_feature s _ hL f hf hfl
+
+/-- non-vacuity: the `source` feature of a six-residue record, a locator with head 4 -/
+example :
+    let s : Seq := ⟨[⟨"source", .ranged 0 6 false false, []⟩], [65, 67, 71, 84, 65, 67]⟩
+    0 < s.len ∧ C04.fullLength s.len (.ranged 0 6 false false) = true ∧
+    Loc.normOk s.len ((Loc.ranged 0 6 false false).expand 0 (C04.rotN (-4) s.len)) = false ∧
+    (Cli.rotate (fun _ => [seg 4 1]) s).bytes = [65, 67, 65, 67, 71, 84] := by decide
 
 /-- … nothing is lost or added -/
 theorem rotate_feature_count (loc : Seq → List Reg) (s : Seq) :
